@@ -208,6 +208,32 @@ def handleDist (inp out : Toks) : String :=
     else if halfCirc - h < 1000 then "ok far near-antipodal"
     else "ok far"
 
+/-- `2^-53`, the unit roundoff of float64. -/
+def uRound : Float := Float.ofBits 0x3CA0000000000000
+
+/-- Near-pole allowance of the destination clause, in metres, from the error analysis of
+    `bLat = asin(s)`, `s = sin φ₁·cos δ + cos φ₁·sin δ·cos β` (geo/distance.go:84):
+
+    * every libm value is within 1 ulp (relative error ≤ 2u, `u = 2^-53`), every `*` and `+` adds a
+      relative u: the first product carries ≤ 5u, the second ≤ 8u, the sum one more u, and
+      `|sin φ₁ cos δ| + |cos φ₁ sin δ| = sin(|φ₁| + δ) ≤ 1`; hence `|s − s*| ≤ ε = 9u`;
+    * with θ the colatitude of the result (`s = cos θ`): `|cos θ_q − cos θ*| ≤ ε` gives
+      `|θ_q − θ*|·(θ_q + θ*)/2 ≲ ε`, i.e. `|Δθ| ≤ 2ε / sin θ_q` and (as `θ_q + θ* ≥ |Δθ|`)
+      `|Δθ| ≤ √(2ε)`;
+    * a latitude error Δθ moves the landing point by at most `R·|Δθ|`.
+
+    So the haversine distance from the start may be off by `R · min(18u / cos φ_q, √(18u))`
+    (at most 0.285 m, and above 1 mm only within 81 m of a pole) on top of the flat measured 1 mm.
+    All other roundings (argument conversion, `asin` itself, the longitude, the haversine) are not
+    amplified and stay inside the flat part.  `cos φ_q` is taken as `sin` of the colatitude
+    `(90 − |φ_q|)·π/180`, whose subtraction is exact near a pole. -/
+def destPoleAllowance (latq : Float) : Float :=
+  let colat := (90 - latq.abs) * piF / 180
+  let c := (Float.sin colat).abs
+  let eps2 := 18 * uRound
+  let capv := earthR * Float.sqrt eps2
+  if c * capv ≤ earthR * eps2 then capv else earthR * eps2 / c
+
 /-- `dest p brg d => q H(p,q) T…` -/
 def handleDest (inp out : Toks) : String :=
   match (do
@@ -228,10 +254,30 @@ def handleDest (inp out : Toks) : String :=
     fin agree <|
     let hh := fl h
     let dd := fl d
-    if hh.isNaN then "propfail dest-distance nan" else
+    if hh.isNaN then
+      -- The one documented situation (finding C18-dest-nan-asin-above-one): the argument of
+      -- `math.Asin` rounded to ±(1 + 2^-52) (a landing point within metres of a pole), so the
+      -- implementation returns (NaN, NaN) — and the model, fed the same libm values, does too.
+      -- Any other NaN, or a case on which the twin disagrees, keeps the generic label.
+      let asinAbove := t.any fun en => en.fn == "as" && (fl en.a).abs > 1 && (fl en.a).abs ≤ 1 + 8 * uRound
+      if agree.isNone && asinAbove && (fl q.x).isNaN && (fl q.y).isNaN && finite (fl p.x) && finite (fl p.y)
+          && finite (fl b) && finite dd
+      then "propfail dest-distance nan-asin-arg-above-one"
+      else "propfail dest-distance nan" else
     let e := (hh - dd).abs
     -- measured: 1 mm
-    if e ≤ 1e-3 then s!"ok dest {bucket e}" else "propfail dest-distance"
+    -- no clause constrains the output longitude (H is 2π-periodic in it): the code does not
+    -- normalise `aLon + atan2(…)` to [-180, 180]; recorded as a tag only (props.json `partial`)
+    let un := if (fl q.x).abs > 180 then " lon-unnormalised" else ""
+    if e ≤ 1e-3 then
+      (if destPoleAllowance (fl q.y) > 1e-3 then s!"ok dest near-pole {bucket e}{un}" else s!"ok dest {bucket e}{un}")
+    else
+    -- Beyond 1 mm.  The one documented situation (finding C18-dest-near-pole-asin): the excess is
+    -- explained by the conditioning of `asin` at ±90°, AND model and implementation agree bit for
+    -- bit on this case.  Anything else — a larger loss, a loss away from the poles, or a case on
+    -- which the twin disagrees — keeps the generic label, which no known finding matches.
+    if agree.isNone && e ≤ 1e-3 + destPoleAllowance (fl q.y) then "propfail dest-distance near-pole-asin"
+    else "propfail dest-distance"
 
 /-- `mid p1 p2 => m H(p1,m) H(m,p2) H(p1,p2) T…` -/
 def handleMid (inp out : Toks) : String :=
@@ -257,24 +303,40 @@ def handleMid (inp out : Toks) : String :=
     let e := (a - b).abs
     if !(e ≤ 1e-3) then "propfail midpoint-equidistant" else
     if !((a - c / 2).abs ≤ 1e-3) then "propfail midpoint-halfway" else
-    if c == 0 then "ok triv-mid-same-point" else s!"ok mid {bucket e}"
+    if c == 0 then "ok triv-mid-same-point" else
+    s!"ok mid {bucket e}{if (fl m.x).abs > 180 then " lon-unnormalised" else ""}"
 
 /-- Absolute rounding allowance for comparing two float evaluations of the ring sum that differ in
-    summation order / in how the k = 0 term is split (MEASURED clauses only):
-    `1e-12 · R²/2 · Σ_k |term_k|`  (re-association of the sum)  plus
-    `4e-15 · R²/2 · Σ_k (|λ_{k+1}| + 2|λ_k| + |λ_{k−1}|)·|sin φ_k|`  (18 ulp: cancellation inside the
-    longitude differences; the loop splits the k = 0 term into `(λ₀−λ_{m−1})` and `(λ₁−λ₀)`). -/
+    summation order / in which vertex has its term split (MEASURED clauses only), from this analysis:
+
+    * every evaluation starts from the SAME floats `λ_i = deg2rad(lon_i)` and `s_i = sin φ_i` (they do
+      not depend on the rotation or direction), so cancellation inside `λ_hi − λ_lo` magnifies nothing
+      that differs between the two evaluations: a float subtraction of given operands has relative
+      error ≤ u (`u = 2^-53`), and is exact for neighbouring longitudes (Sterbenz);
+    * one summand `fl(fl(λ_hi − λ_lo)·s)` has relative error ≤ 2u; the loop adds `l` summands with
+      `l − 1` rounded additions (error ≤ (l−1)·u·Σ|t|);
+    * the loop splits one vertex's term `(λ_{k+1} − λ_{k−1})·s_k` into `(λ_k − λ_{k−1})·s_k` and
+      `(λ_{k+1} − λ_k)·s_k`; which vertex depends on the rotation, so the magnitudes are bounded with
+      every term split:  `S = Σ_k (|λ_k − λ_{k−1}| + |λ_{k+1} − λ_k|)·|s_k|`.
+
+    Each evaluation is within `(l+1)·u·S` of the exact sum of the same real numbers, two evaluations
+    within `2(l+1)·u·S`; with `l ≤ m + 1` loop terms over `m` distinct vertices the allowance is
+    `(2m + 6)·u·S · R²/2` (the three roundings of `·R·R/2` are relative to the area and covered by the
+    relative part of `closeTo`).  It is proportional to the longitude DIFFERENCES, not to |λ|: for a
+    narrow ring at large |lon| it stays many orders of magnitude below the area. -/
 def ringScale (F : Fn OF) (v : List (Pt OF)) : Float :=
   let m := v.length
   let get := fun (i : Nat) => v.getD (i % m) ⟨0, 0⟩
-  let lam := fun (p : Pt OF) => (deg2rad F p.x).v.abs
-  let s1 := (List.range m).foldl (fun acc k =>
-    acc + (ringTerm F (get (k + m - 1)) (get k) (get (k + 1))).v.abs) 0
-  let s2 := (List.range m).foldl (fun acc k =>
-    acc + (lam (get (k + 1)) + 2 * lam (get k) + lam (get (k + m - 1))) * (F.sin (deg2rad F (get k).y)).v.abs) 0
-  (1e-12 * s1 + 4e-15 * s2) * earthR * earthR / 2
+  let lam := fun (p : Pt OF) => (deg2rad F p.x).v
+  let S := (List.range m).foldl (fun acc k =>
+    let l0 := lam (get (k + m - 1)); let l1 := lam (get k); let l2 := lam (get (k + 1))
+    acc + ((l1 - l0).abs + (l2 - l1).abs) * (F.sin (deg2rad F (get k).y)).v.abs) 0
+  (2 * m.toFloat + 6) * uRound * S * earthR * earthR / 2
 
-def closeTo (a b allowance : Float) : Bool := (a - b).abs ≤ 1e-9 * b.abs + allowance
+/-- `|a − b| ≤ 8u·|b| + allowance`: the relative part covers the roundings of `−sum·R·R/2` in the two
+    evaluations (2u each, relative to the area; 8u leaves room for second-order terms).
+    Dividing both parts by 8 makes about 4 in 10⁴ generated rings fail: the bound is not slack. -/
+def closeTo (a b allowance : Float) : Bool := (a - b).abs ≤ 8 * uRound * b.abs + allowance
 
 /-- `ring <n pts> => SignedArea Area T…` -/
 def handleRing (inp out : Toks) : String :=
@@ -298,8 +360,11 @@ def handleRing (inp out : Toks) : String :=
     let spec := -(cyclicSum F v) * F.R * F.R / 2
     if !spec.ok then "diff oracle-miss" else
     if s.isNaN then "skip nan" else
-    if !closeTo s spec.v (ringScale F v) then "propfail ring-cyclic-sum" else
+    let sc := ringScale F v
+    if !closeTo s spec.v sc then "propfail ring-cyclic-sum" else
     let closed := v.length != R.length
+    -- the comparison says nothing when the allowance is of the area's own magnitude
+    if !(sc < 0.1 * s.abs) then "ok triv-ring rounding-level-area" else
     s!"ok ring {if closed then "closed" else "open"} n={if v.length ≤ 4 then toString v.length else if v.length ≤ 8 then "5-8" else "9+"}"
 
 /-- the rotations the harness applies: distinct vertices rotated and re-closed for a closed ring -/
@@ -329,11 +394,13 @@ def handleRingInv (inp out : Toks) : String :=
     let b := fl a0
     if b.isNaN then "skip nan" else
     let sc := ringScale F (openVerts R)
-    -- measured within 1e-9 relative + the rounding allowance `ringScale`: float summation order changes
+    -- within the derived rounding bound (`closeTo`, `ringScale`)
     if !(as.all fun a => closeTo (fl a) b sc) then "propfail ring-rotate" else
     if !(closeTo (-(fl ar)) b sc) then "propfail ring-reverse" else
     if r.length < 3 then "ok triv-short-ring" else
     if b == 0 then "ok ringinv zero-area" else
+    -- the comparison says nothing when the allowance is of the area's own magnitude
+    if !(sc < 0.1 * b.abs) then "ok triv-ringinv rounding-level-area" else
     s!"ok ringinv {if (openVerts R).length != R.length then "closed" else "open"} n={if as.length ≤ 4 then toString as.length else if as.length ≤ 8 then "5-8" else "9+"}"
 
 /-- `box lo hi => Area T…` -/
@@ -431,26 +498,29 @@ partial def lengthFrom (g : Geom UInt64) (ds : List Float) : Float × List Float
   | .multiPolygon mp => mp.foldl (fun (acc : Float × List Float) p => let (a, ds) := poly p acc.2; (acc.1 + a, ds)) (0, ds)
   | .collection gs => gs.foldl (fun (acc : Float × List Float) g => let (a, ds) := lengthFrom g acc.2; (acc.1 + a, ds)) (0, ds)
 
-/-- `len <gval> => Length LengthHaversine k (d_i h_i)* T…` -/
+/-- `len <gval> => Length LengthHaversine LengthHaversign k (d_i h_i)* T…`
+    (`LengthHaversign` is the deprecated misspelt entry point; it must return what `LengthHaversine` does) -/
 def handleLen (inp out : Toks) : String :=
   match (do
     let (g, _) ← gval inp
     let (l, o) ← bits out
     let (lh, o) ← bits o
+    let (lhs, o) ← bits o
     let (segs, o) ← counted (fun ts => do
       let (a, ts) ← bits ts
       let (b, ts) ← bits ts
       pure ((a, b), ts)) o
     let (t, _) ← tableP o
-    pure (g, l, lh, segs, t)) with
+    pure (g, l, lh, lhs, segs, t)) with
   | none => if out == ["panic"] then "propfail panic" else "bad len"
-  | some (g, l, lh, segs, t) =>
+  | some (g, l, lh, lhs, segs, t) =>
     let F := mkFn t
     let (ml, mlh) : OF × OF := match toOV g with
       | .val g => (geoLength F g, geoLengthHaversine F g)
       | _ => (0, 0)
-    let agree := cmpAll [ml, mlh] [l, lh]
+    let agree := cmpAll [ml, mlh, mlh] [l, lh, lhs]
     fin agree <|
+    if !(sameF (fl lhs) lh) then "propfail length-haversign-differs" else
     match g with
     | .nilIface | .nilSlice _ => if fl l == 0 && fl lh == 0 then "ok triv-nil" else "propfail nil-length-nonzero"
     | .val g =>
@@ -460,6 +530,22 @@ def handleLen (inp out : Toks) : String :=
       if !(sameF s1 l) then "propfail length-sum" else
       if !(sameF s2 lh) then "propfail length-haversine-sum" else
       if segs.isEmpty then s!"ok triv-no-segments {kindTag g}" else s!"ok len {kindTag g}"
+
+/-- Which way `PointAtDistanceAlongLine` leaves its loop on this input (for the evidence tags):
+    `at-zero` (distance 0), `at-vertex` (the distance equals a running prefix sum exactly, the
+    equality case of `expected < actual`), `at-total` / `past-end` (the loop falls through), `inside`. -/
+def alongTag (F : Fn OF) (ls : List (Pt OF)) (d : Float) : String :=
+  let rec go (prev : Pt OF) (rest : List (Pt OF)) (travelled : Float) (first : Bool) : String :=
+    match rest with
+    | [] => if d == travelled then "at-total" else "past-end"
+    | p :: rest =>
+      let actual := (distanceHaversine F prev p).v
+      if d - travelled < actual then
+        (if d == 0 then "at-zero" else if !first && d == travelled then "at-vertex" else "inside")
+      else go p rest (travelled + actual) false
+  match ls with
+  | [] => "empty"
+  | p :: rest => go p rest 0 true
 
 /-- `along <n pts> dist => x y brg T… | panic` (twin only) -/
 def handleAlong (inp out : Toks) : String :=
@@ -483,7 +569,8 @@ def handleAlong (inp out : Toks) : String :=
       match pointAtDistanceAlongLine F (toOs ls) (ofB d) with
       | .ok (mq, mb) =>
         fin (cmpAll [mq.x, mq.y, mb] [q.x, q.y, b]) <|
-          if ls.length == 1 || fl d < 0 then "ok triv-along-first" else "ok along twin-only"
+          if ls.length == 1 || fl d < 0 then "ok triv-along-first"
+          else s!"ok along twin-only {alongTag F (toOs ls) (fl d)}"
       | _ => "diff panic"
 
 def boundOut : P (Pt UInt64 × Pt UInt64) := fun ts => do
@@ -521,7 +608,14 @@ def handlePad (inp out : Toks) : String :=
     let (lo, hi) := boundPad F (ofF mPerDeg) (toO b0.1) (toO b0.2) (ofB m)
     let mh := boundHeight (ofF mPerDeg) (toO b0.1) (toO b0.2)
     let mw := boundWidth F (toO b0.1) (toO b0.2)
-    fin (cmpAll [lo.x, lo.y, hi.x, hi.y, mh, mw] [b.1.x, b.1.y, b.2.x, b.2.y, h, w]) "ok bound-pad twin-only"
+    -- which of the four clamps of bound.go:54-58 changed a coordinate on this input
+    let dy := fl m / mPerDeg
+    let cl := (if fl b.1.x == -180 && fl b0.1.x > -180 then "W" else "") ++
+      (if fl b.1.y == -90 && fl b0.1.y - dy < -90 then "S" else "") ++
+      (if fl b.2.x == 180 && fl b0.2.x < 180 then "E" else "") ++
+      (if fl b.2.y == 90 && fl b0.2.y + dy > 90 then "N" else "")
+    fin (cmpAll [lo.x, lo.y, hi.x, hi.y, mh, mw] [b.1.x, b.1.y, b.2.x, b.2.y, h, w])
+      s!"ok bound-pad twin-only clamp={if cl == "" then "none" else cl}"
 
 def handle (ts : Toks) : String :=
   match ts with
